@@ -302,7 +302,7 @@ Definition lower_inbox (m : string) : string :=
   if String.eqb m "INBOX" || String.eqb m "Inbox" || String.eqb m "inbox" then "inbox" else m.
 
 (* the mailbox management task lets a command in: resync first *)
-Definition admit (w : world) (m : string) (b : mbox) : mbox * out := resync b.
+Definition admit_cmd (w : world) (m : string) (b : mbox) : mbox * out := resync b.
 
 (* ... for a command with a message set: the set is resolved first (a Bad is answered at once,
    without a resync), then the mailbox is resynced and the set resolved again *)
@@ -310,7 +310,7 @@ Definition admit_set (w : world) (m : string) (b : mbox) (uidc : bool) (st : lis
   : res (mbox * out * list Z) :=
   match resolve b uidc st with
   | Err e => Err e
-  | Ok _ => let '(b1, o1) := admit w m b in
+  | Ok _ => let '(b1, o1) := admit_cmd w m b in
             match resolve b1 uidc st with Ok sel => Ok (b1, o1, sel) | Err e => Err e end
   end.
 
@@ -399,7 +399,7 @@ Definition copy_into (w : world) (srcb : mbox) (sel : list Z) (dn : string) : op
     | [] => Some (w, [], [], [])        (* nothing to copy from an empty mailbox: the destination is not touched *)
     | _ =>
       let picked := msgs_at (b_msgs srcb) sel in
-      let '(db1, o1) := admit w dn db in                         (* phony APPEND is admitted: resync *)
+      let '(db1, o1) := admit_cmd w dn db in                         (* phony APPEND is admitted: resync *)
       let db2 := with_disk db1 (add_files (b_disk db1) (b_msgs db1) picked) in
       let first := b_next db2 in
       let '(db3, o2) := resync db2 in
@@ -442,7 +442,7 @@ Definition step (w : world) (o : op) : world * out :=
       match get_box w1 m with
       | None => (w1, [(s, RNo)])
       | Some b =>
-          let '(b1, o1) := admit w1 m b in
+          let '(b1, o1) := admit_cmd w1 m b in
           let ms := b_msgs b1 in
           let c := {| c_idle := false; c_exam := exam; c_pend := []; c_view := map m_uid ms; c_ok := true |} in
           let b2 := set_clients b1 (b_clients b1 ++ [(s, c)]) in
@@ -464,7 +464,7 @@ Definition step (w : world) (o : op) : world * out :=
             let b0 := set_clients b (zalist_del (b_clients b) s) in
             if c_exam c then (set_box w n b0, [(s, ROk CNone)])
             else if existsb (has_seq "Deleted") (b_msgs b0) then
-              let '(b1, o1) := admit w n b0 in
+              let '(b1, o1) := admit_cmd w n b0 in
               let '(b2, o2) := expunge b1 (has_seq "Deleted") in
               (set_box w n b2, o1 ++ o2 ++ [(s, ROk CNone)])
             else (set_box w n b0, [(s, ROk CNone)])
@@ -474,7 +474,7 @@ Definition step (w : world) (o : op) : world * out :=
       | None => (w, [(s, ROk CNone)])
       | Some n => match get_box w n with
                   | None => (w, [(s, ROk CNone)])
-                  | Some b => let '(b1, o1) := admit w n b in
+                  | Some b => let '(b1, o1) := admit_cmd w n b in
                               let '(b2, o2) := flush b1 s in
                               (set_box w n b2, o1 ++ o2 ++ [(s, ROk CNone)])
                   end
@@ -482,7 +482,7 @@ Definition step (w : world) (o : op) : world * out :=
   | OCheck s =>
       in_mbox w s (fun n b =>
         let '(b0, o0) := flush b s in
-        let '(b1, o1) := admit w n b0 in
+        let '(b1, o1) := admit_cmd w n b0 in
         let '(b2, o2) := flush b1 s in
         (set_box w n b2, o0 ++ o1 ++ o2 ++ [(s, ROk CNone)]))
   | OIdle s =>
@@ -517,7 +517,7 @@ Definition step (w : world) (o : op) : world * out :=
       match get_box w0 m with
       | None => (w0, o0 ++ [(s, RNo)])
       | Some b =>
-          let '(b1, o1) := admit w0 m b in
+          let '(b1, o1) := admit_cmd w0 m b in
           if existsb reserved_kw flags then (set_box w0 m b1, o0 ++ o1 ++ [(s, RNo)])
           else
             let file := {| m_key := 0; m_uid := 0; m_cid := cid; m_date := date; m_seqs := seqs_of_flags flags |} in
@@ -612,7 +612,7 @@ Definition step (w : world) (o : op) : world * out :=
         match gate b s uidc false with
         | None => (w, [(s, RNo)])
         | Some (b0, o0) =>
-            let '(b1, o1) := admit w n b0 in
+            let '(b1, o1) := admit_cmd w n b0 in
             let hits := map fst (filter (fun p => has_seq (flag_to_seq flag) (snd p))
                                         (combine (map (fun i => Z.of_nat i + 1) (seq 0 (List.length (b_msgs b1)))) (b_msgs b1))) in
             let res := if uidc then uids_at (b_msgs b1) hits else hits in
@@ -629,7 +629,7 @@ Definition step (w : world) (o : op) : world * out :=
               let was := c_idle c in
               let bh := upd_client b0 s (fun c => set_idle c true) in      (* the "idling hack" *)
               match (match uset with
-                     | None => let '(b1, o1) := admit w n bh in Ok (b1, o1, None)
+                     | None => let '(b1, o1) := admit_cmd w n bh in Ok (b1, o1, None)
                      | Some st => match admit_set w n bh true st with
                                   | Ok (b1, o1, sel) => Ok (b1, o1, Some (uids_at (b_msgs b1) sel))
                                   | Err e => Err e end end) with
@@ -682,7 +682,7 @@ Definition step (w : world) (o : op) : world * out :=
                               let '(sb0, o3) := flush sb s in
                               let was := c_idle c in
                               let sbh := upd_client sb0 s (fun c => set_idle c true) in
-                              let '(sb1, o4) := admit w2 n sbh in
+                              let '(sb1, o4) := admit_cmd w2 n sbh in
                               let '(sb2, o5) := expunge sb1 (fun m => zmem (m_uid m) src) in
                               (set_box w2 n (upd_client sb2 s (fun c => set_idle c was)),
                                o0 ++ o1 ++ o2 ++ [(s, RMoveOk (CCopyUid vv src dstu))] ++ o3 ++ o4 ++ o5 ++ [(s, ROk CNone)])
